@@ -459,6 +459,75 @@ func main() {
 	sb.WriteString("].\n")
 	os.WriteFile(filepath.Join(*out, "LockFacts.v"), []byte(sb.String()), 0o644)
 
+	// ---------------------------------------------------------------- constants the model is written against
+	{
+		var cb strings.Builder
+		cb.WriteString("(* GENERATED by tools/srcfacts from /repo on every run. Do not edit. *)\n")
+		cb.WriteString("From Coq Require Import String List ZArith.\nImport ListNotations.\nOpen Scope string_scope.\n\n")
+		// tree.Methods (composite literal of net/http constants) and the integer constants of internal/tree
+		var methods []string
+		consts := map[string]string{}
+		collect := func(pi *pkgInfo) {
+			for _, f := range pi.files {
+				for _, d := range f.Decls {
+					gd, ok := d.(*ast.GenDecl)
+					if !ok {
+						continue
+					}
+					for _, sp := range gd.Specs {
+						vs, ok := sp.(*ast.ValueSpec)
+						if !ok {
+							continue
+						}
+						for i, n := range vs.Names {
+							if i >= len(vs.Values) {
+								continue
+							}
+							if n.Name == "Methods" {
+								if cl, ok := vs.Values[i].(*ast.CompositeLit); ok {
+									for _, el := range cl.Elts {
+										if tv, ok := pi.info.Types[el]; ok && tv.Value != nil {
+											methods = append(methods, strings.Trim(tv.Value.ExactString(), "\""))
+										}
+									}
+								}
+							}
+							if tv, ok := pi.info.Types[vs.Values[i]]; ok && tv.Value != nil && gd.Tok == token.CONST {
+								consts[pi.pkg.Name()+"."+n.Name] = tv.Value.ExactString()
+							}
+						}
+					}
+				}
+			}
+		}
+		collect(pi)
+		if sp, err := load(filepath.Join(*repo, "internal/syntax"), "github.com/issue9/mux/v9/internal/syntax"); err == nil {
+			collect(sp)
+		}
+		cb.WriteString("Definition src_methods : list string := [")
+		for i, m := range methods {
+			if i > 0 {
+				cb.WriteString("; ")
+			}
+			cb.WriteString(q(m))
+		}
+		cb.WriteString("].\n")
+		names := make([]string, 0, len(consts))
+		for k := range consts {
+			names = append(names, k)
+		}
+		sort.Strings(names)
+		cb.WriteString("Definition src_consts : list (string * string) := [")
+		for i, k := range names {
+			if i > 0 {
+				cb.WriteString("; ")
+			}
+			cb.WriteString("(" + q(k) + ", " + q(consts[k]) + ")")
+		}
+		cb.WriteString("].\n")
+		os.WriteFile(filepath.Join(*out, "Consts.v"), []byte(cb.String()), 0o644)
+	}
+
 	// ---------------------------------------------------------------- package-level state
 	var gb strings.Builder
 	gb.WriteString("(* GENERATED by tools/srcfacts from /repo on every run. Do not edit. *)\n")
